@@ -9,11 +9,9 @@ ID = "C08"
 HARNESSES = [dict(name="radius", pkg="./plugins/auth/radius/", test="TestVerifC08", timeout=900,
                   files=[("plugins/auth/radius/zz_verif_c08_test.go", "harness/C08/zz_verif_c08_test.go")])]
 MODEL_NEEDS_IMPL = True
-# model variants: "repaired" = every repair (full theorems); "head" = /repo HEAD (the five committed fixes; neither the
-# Event-Timestamp requirement nor the extra second of duplicate-cache lifetime: two recorded known findings); "head_nots" /
-# "head_nottl" = HEAD with exactly one of the two present (attribution of a mismatch to ONE finding).  Regressions of
-# committed fixes match none of them: VIOLATIONs.
-VARIANTS = ["repaired", "head_nots", "head_nottl", "head"]
+# model variants: "repaired" = every repair (full theorems); "head" = /repo HEAD (the six committed fixes; not the
+# Event-Timestamp requirement: the one recorded known finding).  Regressions of committed fixes match neither: VIOLATIONs.
+VARIANTS = ["repaired", "head"]
 RULE = ("reply: 1-3 sequential exchanges on one real radiusConn over loopback UDP (identifier and request authenticator "
         "forced, identifier often re-used between rounds; 30 % of non-final rounds are HELD, i.e. overlap with the next "
         "exchange, mostly on the same identifier); per round 1-5 datagrams from the classes genuine / genuine+MA / "
@@ -304,7 +302,7 @@ def gen_coa_packet(rng, clients, win, nasid, force_ts=False):
 def gen_coa_ttl(rng):
     """Lifetime of the duplicate cache: window 1 s (lifetime 2 s on HEAD).  A correctly signed request stamped 0 or 1 s ahead
     is sent early in a wall-clock second, then re-sent byte-identically a chosen time later: inside the lifetime, in the last
-    admitted second just after the entry expired (HEAD executes it again), after the window closed."""
+    admitted second (where an entry with a lifetime of exactly 2*window would have expired), after the window closed."""
     key = K1
     tgt = rng.choice(["1:" + hx(b"alice"), "8:0a010203", "44:" + hx(b"sess-ttl")])
     code = rng.choice([40, 43])
@@ -477,14 +475,11 @@ def _usable_ts(kv, pk):
 
 
 def signature(case, impl, models):
-    """Two findings are recorded.  A mismatch against [repaired] is attributed to ONE of them only if the implementation's
-    line equals the model with exactly that finding present and every differing packet has the finding's input class:
-      coa-without-event-timestamp-bypasses-window: window > 0, recipe (or the recipe a `dup=` packet copies) without usable
-        Event-Timestamp, answered by the implementation, dropped by [repaired];
-      coa-duplicate-cache-expires-inside-window: a timed replay (`dup=` with `after=`) that the implementation executed again
-        (event published) while [repaired] answers it from the cache.
-    Anything else is a VIOLATION."""
-    if case.split(" ", 1)[0] != "coa":
+    """One finding is recorded.  A mismatch against [repaired] is attributed to it only if the implementation's line equals
+    the [head] model's line and every differing packet has the input class of the finding: window > 0, recipe (or, for a
+    `dup=` packet, the recipe it copies) without usable Event-Timestamp, answered by the implementation, dropped by
+    [repaired].  Anything else is a VIOLATION."""
+    if case.split(" ", 1)[0] != "coa" or models.get("head") != impl:
         return None
     rep = models.get("repaired", "")
     pk = _pkts(case)
@@ -492,29 +487,14 @@ def signature(case, impl, models):
     si, sr = _segs(impl), _segs(rep)
     if win <= 0 or len(pk) != len(si) or len(si) != len(sr):
         return None
-    if models.get("head_nots") == impl:
-        hit = False
-        for kv, a, b in zip(pk, si, sr):
-            if a == b:
-                continue
-            if _usable_ts(kv, pk) is not False or _coa_proj(a)[0] != "reply" or _coa_proj(b)[0] != "drop":
-                return None
-            hit = True
-        return "coa-without-event-timestamp-bypasses-window" if hit else None
-    if models.get("head_nottl") == impl:
-        hit = False
-        for kv, a, b in zip(pk, si, sr):
-            if a == b:
-                continue
-            # [repaired] still holds the entry and answers from the cache; the implementation's entry has expired: it either
-            # executes the request again (the finding proper) or, when the window has closed meanwhile, drops it
-            if "dup" not in kv or "after" not in kv or _tok(b, "ev") != "noev" or _tok(b, "st") != "none":
-                return None
-            if _tok(a, "ev") == "noev" and _coa_proj(a)[0] != "drop":
-                return None
-            hit = True
-        return "coa-duplicate-cache-expires-inside-window" if hit else None
-    return None
+    hit = False
+    for kv, a, b in zip(pk, si, sr):
+        if a == b:
+            continue
+        if _usable_ts(kv, pk) is not False or _coa_proj(a)[0] != "reply" or _coa_proj(b)[0] != "drop":
+            return None
+        hit = True
+    return "coa-without-event-timestamp-bypasses-window" if hit else None
 
 
 def nontrivial(case, out):
